@@ -2,9 +2,8 @@
 from ..core import f2b, b2f, run_harness, run_driver
 from .. import samples as S, sample_checks as SC, serde_schema
 
-MODULE = "Momtrop.Props.C18"
-THEOREMS = ["Momtrop.C18.schema_matches", "Momtrop.C18.dec_enc_edge", "Momtrop.C18.dec_enc_entry", "Momtrop.C18.dec_enc_graph",
-            "Momtrop.C18.dec_enc_table", "Momtrop.C18.decode_encode", "Momtrop.C18.observation_after_roundtrip"]
+MODULE = "Momtrop.Props.C18G"
+THEOREMS = ["Momtrop.C18G.dec_enc", "Momtrop.C18G.dec_enc_list", "Momtrop.C18G.dec_enc_fields", "Momtrop.C18G.generated_schema_ok", "Momtrop.C18G.roundtrip_generated", "Momtrop.C18G.observation_after_roundtrip", "Momtrop.C18G.default_inhabits"]
 RULE = ("the serde schema is re-extracted from /repo/src on every run and checked by a kernel-checked theorem against the model; real round "
         "trips of samplers built through the public API (catalogue/random graphs, D=1..6 with D*L odd and even, signatures with negative "
         "entries and |entries|>=2, vacuum graphs without externals, disconnected graphs, tables with values beyond 2^63, 8-edge graphs) through serde_json (text), serde_json::Value, "
@@ -39,6 +38,8 @@ def same_tree(got, exp):
         return got == [] or (len(got) == 1 and len(exp) == 1 and same_tree(got[0], exp[0]))
     if isinstance(got, dict) and isinstance(exp, dict):
         return set(got) == set(exp) and all(same_tree(got[k], exp[k]) for k in got)   # field ORDER is checked by schema_matches
+    if got is None and exp == "number":
+        return True      # serde_json::Value has no non-finite numbers: an infinite f64 appears as null in the KEY tree (not in the round trips)
     return got == exp
 
 
@@ -46,14 +47,18 @@ def run(ctx):
     rng = ctx.rng
     structs, manual = serde_schema.extract()
     ss = S.generate(ctx, 12 if ctx.quick else 80, 1, max_e=6, max_loops=3, routings_per_graph=1, kinds=("uniform",),
-                    special=("vacuum", "disconnected", "huge_j") * (2 if ctx.quick else 8) + ("eight",) * (1 if ctx.quick else 4))
+                    special=("vacuum", "disconnected", "huge_j") * (2 if ctx.quick else 8) + ("eight",) * (1 if ctx.quick else 4) + ("inf_factor",))
     reqs, infos = [], []
     npts = 40 if ctx.quick else 400
     for s in ss:
         c, r = s["case"], s["routing"]
         dim = s["built"]["numVars"]
         pts = [[f2b(x) for x in S.point(rng, dim, k)] for k in (["uniform"] * (npts - 4) + ["corner"] * 4)]
+        import math
+        nonfinite = not math.isfinite(b2f(s["built"]["cached"])) or any(not math.isfinite(b2f(e[2])) or not math.isfinite(b2f(e[3])) for e in s["table"]["entries"])
         for fmt in ("json", "json_value", "cbor", "wire_map", "wire_seq"):
+            if nonfinite and fmt.startswith("json"):
+                ctx.count("json_skipped(non-finite value: JSON does not preserve it)"); continue
             rq = dict(S.graphs.request(c), op="serde", sig=r["sig"], edge_data=s["req"]["edge_data"], points=pts, format=fmt, meta=True)
             reqs.append(rq); infos.append((s, fmt))
     res = run_harness(reqs)
